@@ -61,6 +61,11 @@ def main():
         print("helper", c03helper.WHO)
     except ImportError:
         print("helper missing")
+    # the program configures logging itself: whatever the command does to the logging module must not pre-empt it
+    import logging
+    logging.basicConfig(stream=sys.stdout, format="LOG %(levelname)s %(name)s %(message)s", level=logging.DEBUG)
+    logging.getLogger("c03prog").debug("debug record")
+    logging.getLogger("c03prog").info("info record")
     random.seed(7)
     work(1, "x")
     print("draws", random.random(), random.randrange(100))
@@ -107,6 +112,7 @@ def cli_run_cases(ctx):
     console = os.path.join(os.path.dirname(common.PY), "monkeytype")
     forms = [("script", ["c03prog.py"], ["-m", "monkeytype"], ["run", "c03prog.py"], env),
              ("module", ["-m", "c03prog"], ["-m", "monkeytype"], ["run", "-m", "c03prog"], env)]
+    forms.append(("script_verbose", ["c03prog.py"], ["-m", "monkeytype", "-v"], ["run", "c03prog.py"], env))
     if os.path.exists(console):
         forms.append(("console_script", ["c03prog.py"], [console], ["run", "c03prog.py"], env_console))
         forms.append(("console_script_module", ["-m", "c03prog"], [console], ["run", "-m", "c03prog"], env_console))
